@@ -26,6 +26,9 @@ def records():
         other = recs.build_record(recs.rs("sel/other", [["string", "o"], ["varint", "n"]], ["'other'", "77"]))
         _RECS.append(GroupedRecord("sel/grouped", [recs.build_record(selgrammar.RECORDS[0]), other]))
         _RECS.extend([recs.build_record(selgrammar.DEEP), recs.build_record(selgrammar.TWIN1), recs.build_record(selgrammar.TWIN2)])
+        # a grouped record of another make-up than the first one (all grouped records share one Python class)
+        _RECS.append(GroupedRecord("sel/grouped", [recs.build_record(recs.rs("sel/extra", [["string", "only_here"], ["varint", "k"]], ["'a'", "3"])),
+                                                   recs.build_record(recs.rs("sel/other", [["string", "o"], ["varint", "n"]], ["'zz'", "1"]))]))
     return _RECS
 
 
